@@ -164,8 +164,19 @@ CHECKS = {
          "interpolation knots: non-linear otherwise). Performed ids of the form n<k>.",
     technique="symbolic execution of real code (CrossHair/z3) + AST->SMT float kernel proof",
     ref="DESIGN.md §2 C08"),
+ "C17": dict(
+    text="PARTIAL: symbolic execution of the last two stages of the pitch speller (compute_morphetic_pitch, p2pn) with a symbolic MIDI pitch "
+         "21..108 and an ARBITRARY morph 0..6: whichever morph the estimator picks, the spelled step/alteration/octave sounds exactly the MIDI "
+         "pitch (so a score imported from MIDI keeps the file's pitches). Path tree exhausted (88 pitches x 7 morphs enumerated by the solver "
+         "for the table look-ups; the octave placement is decided symbolically).",
+    note="Only the pitch-preservation clause is claimed. The morph estimation (chroma-vector windows; hence |alter| <= 2 and order independence), "
+         "voice separation (VoSA) and key estimation (np.corrcoef, argmax) are dense numeric kernels outside the encoding.",
+    technique="symbolic execution of real code (CrossHair/z3), partial",
+    ref="DESIGN.md §2 C17"),
 }
 NOT_APPLICABLE = {
+ "C03": "MusicXML round trip: exporter/importer are bound to lxml element trees and byte serialisation; the pure-Python tree model planned in DESIGN.md was not built (see DESIGN.md §2 C03); no sound solver-based encoding in place",
+ "C19": "MEI/kern loaders work on lxml documents and text lines; the only solver-reachable kernels (kern reciprocal/dot arithmetic, pitch letter counting, MEI duration tables) are table look-ups with nothing left for a solver but enumeration, and dot_function divides symbolic by symbolic (DESIGN.md §2 C19)",
  "C18": "float32/transcendental codec chain (log2, 2**x, mean/std, symbolic/symbolic division) over ~600 lines of vectorised numpy: non-linear with transcendental terms, z3 answers unknown; no sound bounded encoding within reach (DESIGN.md §2 C18)",
 }
 
